@@ -3,3 +3,4 @@ pub mod chain;
 pub mod range;
 pub mod refmodel;
 pub mod models;
+pub mod bridge;
